@@ -307,3 +307,118 @@ Proof.
   unfold wf_atrans. cbn [tA tb tn]. rewrite !map_length, Nat.eqb_refl. cbn [andb].
   apply forallb_forall. intros row Hr. apply in_map_iff in Hr as [e [<- _]]. rewrite map_length, seq_length. apply Nat.eqb_refl.
 Qed.
+
+(* ---- AccessPattern.canonicalize / inner_dims -------------------------------------------------- *)
+Definition wf_ap (p : apattern) : Prop :=
+  wf_atrans (ap_pattern p) = true /\ length (ap_bounds p) = tn (ap_pattern p).
+
+Lemma select_length_eq {A B} (mask : list bool) : forall (l1 : list A) (l2 : list B),
+  length l1 = length mask -> length l2 = length mask -> length (select mask l1) = length (select mask l2).
+Proof.
+  induction mask as [|m mask IH]; intros [|a l1] [|b l2] H1 H2; simpl in *; try discriminate; try reflexivity.
+  destruct m; simpl; [f_equal|]; apply IH; lia.
+Qed.
+
+(* dropping positions whose index value is 0 does not change a dot product *)
+Lemma dot_select mask : forall row x,
+  Forall2 (fun (m : bool) v => m = false -> v = 0) mask x ->
+  dot (select mask row) (select mask x) = dot row x.
+Proof.
+  induction mask as [|m mask IH]; intros row x H; inversion H as [|? v ? xs Hm Hrest]; subst.
+  - cbn [select]. destruct row; [reflexivity|]. rewrite dot_nil_r. destruct (select [] (z :: row)); reflexivity.
+  - destruct row as [|a row]; [reflexivity|]. cbn [select]. destruct m.
+    + rewrite !dot_cons, IH by exact Hrest. reflexivity.
+    + rewrite dot_cons, IH by exact Hrest. rewrite (Hm eq_refl). lia.
+Qed.
+
+Lemma Forall2_len {A B} (R : A -> B -> Prop) l1 l2 : Forall2 R l1 l2 -> length l1 = length l2.
+Proof. induction 1; simpl; congruence. Qed.
+
+Lemma in_box_mask bounds x : in_box bounds x ->
+  Forall2 (fun (m : bool) v => m = false -> v = 0) (map keep_bound bounds) x.
+Proof.
+  unfold in_box. induction 1 as [|b v bs xs [H0 Hb] _ IH]; cbn [map]; constructor; [|exact IH].
+  destruct b as [bb|]; cbn [keep_bound]; [|discriminate]. intros Hk. apply Z.ltb_ge in Hk. lia.
+Qed.
+
+(* every point of the iteration box is mapped to the same element by the canonical pattern, at the
+   point with the removed (bound <= 1) coordinates dropped; dynamic (None) bounds are kept *)
+Theorem ap_canonicalize_eval p x :
+  wf_ap p -> in_box (ap_bounds p) x ->
+  at_eval (ap_pattern (ap_canonicalize p)) (select (map keep_bound (ap_bounds p)) x) = at_eval (ap_pattern p) x
+  /\ in_box (ap_bounds (ap_canonicalize p)) (select (map keep_bound (ap_bounds p)) x)
+  /\ at_eval (ap_pattern p) x <> None.
+Proof.
+  intros [Hw Hn] Hbox. pose proof (in_box_mask _ _ Hbox) as Hmask.
+  assert (Hlx : length x = length (ap_bounds p)) by (symmetry; eapply Forall2_len; exact Hbox).
+  unfold ap_canonicalize, at_eval. cbn [ap_pattern ap_bounds tn tA tb].
+  set (mask := map keep_bound (ap_bounds p)).
+  assert (Hlm : length mask = length (ap_bounds p)) by (unfold mask; apply map_length).
+  rewrite (select_length_eq mask x (ap_bounds p)) by lia. rewrite Nat.eqb_refl.
+  replace (length x =? tn (ap_pattern p))%nat with true by (symmetry; apply Nat.eqb_eq; lia).
+  split; [|split; [|discriminate]].
+  - f_equal. f_equal. unfold mat_vec. rewrite map_map. apply map_ext. intros row. apply dot_select. exact Hmask.
+  - unfold in_box in *. clear -Hbox. subst mask. induction Hbox as [|b v bs xs Hbv _ IH]; cbn [map select]; [constructor|].
+    destruct (keep_bound b); [constructor; assumption|exact IH].
+Qed.
+
+Lemma select_all_true {A} (l : list A) : select (repeat true (length l)) l = l.
+Proof. induction l as [|a l IH]; cbn [length repeat select]; [reflexivity|]. rewrite IH. reflexivity. Qed.
+
+Lemma keep_select bounds : map keep_bound (select (map keep_bound bounds) bounds) =
+                           repeat true (length (select (map keep_bound bounds) bounds)).
+Proof.
+  induction bounds as [|b bs IH]; [reflexivity|]. cbn [map select]. destruct (keep_bound b) eqn:E; [|exact IH].
+  cbn [map length repeat]. rewrite E, IH. reflexivity.
+Qed.
+
+Theorem ap_canonicalize_idempotent p : wf_ap p -> ap_canonicalize (ap_canonicalize p) = ap_canonicalize p.
+Proof.
+  intros [Hw Hn]. unfold ap_canonicalize at 1. cbn [ap_bounds ap_pattern tA tb].
+  set (q := ap_canonicalize p). unfold ap_canonicalize in q. cbn [ap_bounds ap_pattern] in q.
+  set (mask := map keep_bound (ap_bounds p)) in *.
+  set (cb := select mask (ap_bounds p)) in *.
+  unfold q. cbn [ap_bounds ap_pattern tA tb tn]. fold cb.
+  assert (Hk : map keep_bound cb = repeat true (length cb)) by apply keep_select.
+  rewrite Hk, select_all_true. f_equal. f_equal. rewrite map_map.
+  apply map_ext_in. intros row Hrow.
+  unfold wf_atrans in Hw. apply andb_true_iff in Hw as [_ Hrows]. rewrite forallb_forall in Hrows.
+  apply Hrows in Hrow. apply Nat.eqb_eq in Hrow.
+  replace (length cb) with (length (select mask row)); [apply select_all_true|].
+  apply select_length_eq; unfold mask; rewrite map_length; lia.
+Qed.
+
+(* inner_dims: the inner pattern at x' = the pattern at (0,...,0,x') *)
+Lemma dot_app a : forall u b v, length a = length u -> dot (a ++ b) (u ++ v) = dot a u + dot b v.
+Proof.
+  induction a as [|x a IH]; intros [|y u] b v H; simpl in H; try discriminate; [cbn [app]; rewrite dot_nil_l; lia|].
+  cbn [app]. rewrite !dot_cons, IH by lia. lia.
+Qed.
+
+Lemma dot_zero_r a : forall n, dot a (repeat 0 n) = 0.
+Proof.
+  induction a as [|x a IH]; intros n; [reflexivity|]. destruct n; [reflexivity|].
+  cbn [repeat]. rewrite dot_cons, IH. lia.
+Qed.
+
+Theorem ap_inner_dims_eval p dim q x' :
+  wf_ap p -> ap_inner_dims p dim = Some q -> length x' = tn (ap_pattern q) ->
+  at_eval (ap_pattern q) x' = at_eval (ap_pattern p) (repeat 0 (tn (ap_pattern p) - length x') ++ x')
+  /\ ap_bounds q = take_last (Z.to_nat dim) (ap_bounds p).
+Proof.
+  intros [Hw Hn] H Hx. unfold ap_inner_dims in H. destruct (dim <=? 0); [discriminate|]. injection H as <-.
+  cbn [ap_pattern ap_bounds tn tA tb] in *. split; [|reflexivity].
+  set (k := Z.to_nat dim) in *. set (n := tn (ap_pattern p)) in *.
+  unfold at_eval. cbn [tn tA tb]. rewrite Hx, Nat.eqb_refl.
+  assert (E : (length (repeat 0%Z (n - Nat.min k n) ++ x') =? tn (ap_pattern p))%nat = true)
+    by (apply Nat.eqb_eq; rewrite app_length, repeat_length; fold n; lia).
+  rewrite E. clear E.
+  f_equal. f_equal. unfold mat_vec. rewrite map_map. apply map_ext_in. intros row Hrow.
+  unfold wf_atrans in Hw. apply andb_true_iff in Hw as [_ Hrows]. rewrite forallb_forall in Hrows.
+  apply Hrows in Hrow. apply Nat.eqb_eq in Hrow. fold n in Hrow.
+  unfold take_last. rewrite Hrow.
+  rewrite <- (firstn_skipn (n - k) row) at 2.
+  replace (n - Nat.min k n)%nat with (n - k)%nat by lia.
+  rewrite dot_app by (rewrite firstn_length, repeat_length; lia).
+  rewrite dot_zero_r. lia.
+Qed.
